@@ -107,6 +107,38 @@ class SmtBinSet:
     __and__ = intersection
     __rand__ = intersection
 
+    def __iter__(self):
+        """REPRESENTATIVE elements only: every singleton and both end points of every (non-empty) range of the symbolic set, as symbolic ints. Exact
+        for min()/max(); any other consumer sees a subset of the true elements (an under-approximation) - a counterexample that depends on it does
+        not replay with the real bins() and is then reported as harness error, never as a violation."""
+        from crosshair.libimpl.builtinslib import SymbolicInt
+        from crosshair.tracers import NoTracing
+
+        import z3
+
+        with NoTracing():
+            enc = _encoder()
+            paths = enc.run(self.zs, self.ze, self.fmt, False)
+            anchor = z3.IntVal(1)
+            cands = []
+            for pc, r in paths:
+                for sv in r.singles:
+                    cands.append(z3.If(pc, sv if z3.is_expr(sv) else z3.IntVal(sv), anchor))
+                for lo, hi in r.ranges:
+                    lo = lo if z3.is_expr(lo) else z3.IntVal(lo)
+                    hi = hi if z3.is_expr(hi) else z3.IntVal(hi)
+                    ne = z3.And(pc, lo <= hi)
+                    cands.append(z3.If(ne, lo, anchor))
+                    cands.append(z3.If(ne, hi, anchor))
+                for g, sv in r.gsingles:
+                    cands.append(z3.If(z3.And(pc, g), sv if z3.is_expr(sv) else z3.IntVal(sv), anchor))
+                for g, lo, hi in r.granges:
+                    ne = z3.And(pc, g, lo <= hi)
+                    cands.append(z3.If(ne, lo, anchor))
+                    cands.append(z3.If(ne, hi, anchor))
+            out = [SymbolicInt(c) for c in cands]
+        return iter(out)
+
 
 def bins_smt(start, stop, fmt="gff", one=True):
     from crosshair.libimpl.builtinslib import SymbolicInt
